@@ -53,6 +53,12 @@ def specSlope (cells : List Nat) (elevtn distnc : Array Int) (lstsq : Bool) : In
       let last := cells.getLast!
       (elevtn[first]! - elevtn[last]!, distnc[first]! - distnc[last]!)
 
+/-- hypothesis of `Pf.C10.slope_den_pos`, evaluated on the cells of the declarative segment: the distances
+along the cells are strictly monotone (1) or not (0) -/
+def monoFlagC10 (cells : List Nat) (distnc : Array Int) : Int :=
+  let xs := cells.map fun c => distnc[c]!
+  if decide (xs.Pairwise (· < ·)) || decide (xs.Pairwise (· > ·)) then 1 else 0
+
 def perOutletSpec {α : Type} (n : Nat) (outs : List Nat) (f : Nat → Option α) : Option (PerOutlet α) :=
   outs.mapM fun idx0 => if idx0 = n then some none else (f idx0).map some
 
@@ -153,11 +159,14 @@ def opsC10 : List (String × Op) := [
     let isOut := outletFlags nxt.size outs
     let spec := perOutletSpec nxt.size outs fun s =>
       (segExclSpec nxt isOut mask s).map fun cells => specSlope cells elevtn distnc lstsq
-    match segSlope nxt outs elevtn distnc lstsq mask, spec with
-    | some m, some s => pure [("model.num", flagVals m (·.1)), ("model.den", flagVals m (·.2)),
+    let mono := perOutletSpec nxt.size outs fun s =>
+      (segExclSpec nxt isOut mask s).map fun cells => monoFlagC10 cells distnc
+    match segSlope nxt outs elevtn distnc lstsq mask, spec, mono with
+    | some m, some s, some mo => pure [("model.num", flagVals m (·.1)), ("model.den", flagVals m (·.2)),
                               ("model.ok", flagOk m), ("spec.num", flagVals s (·.1)),
-                              ("spec.den", flagVals s (·.2)), ("spec.ok", flagOk s)]
-    | _, _ => throw "fuel"),
+                              ("spec.den", flagVals s (·.2)), ("spec.ok", flagOk s),
+                              ("spec.mono", flagVals mo id)]
+    | _, _, _ => throw "fuel"),
   ("c10.fixed_length_slope", fun a => do
     let ds ← a.nats "ds"
     let us ← a.nats "usmain"
@@ -169,10 +178,13 @@ def opsC10 : List (String × Op) := [
     let mask := a.optBools "mask"
     let spec := perOutletSpec ds.size outs fun s =>
       (fixedLengthCellsSpec ds us distnc half mask s).map fun cells => specSlope cells elevtn distnc lstsq
-    match fixedLengthSlope ds us outs elevtn distnc half lstsq mask, spec with
-    | some m, some s => pure [("model.num", flagVals m (·.1)), ("model.den", flagVals m (·.2)),
+    let mono := perOutletSpec ds.size outs fun s =>
+      (fixedLengthCellsSpec ds us distnc half mask s).map fun cells => monoFlagC10 cells distnc
+    match fixedLengthSlope ds us outs elevtn distnc half lstsq mask, spec, mono with
+    | some m, some s, some mo => pure [("model.num", flagVals m (·.1)), ("model.den", flagVals m (·.2)),
                               ("model.ok", flagOk m), ("spec.num", flagVals s (·.1)),
-                              ("spec.den", flagVals s (·.2)), ("spec.ok", flagOk s)]
-    | _, _ => throw "fuel")
+                              ("spec.den", flagVals s (·.2)), ("spec.ok", flagOk s),
+                              ("spec.mono", flagVals mo id)]
+    | _, _, _ => throw "fuel")
 ]
 end Pf.Ops
